@@ -51,14 +51,8 @@ impl Parse for Expr {
             input.step(|c| {
                 take_until1(
                     alt([
-                        &mut seq([
-                            &mut path_sep,
-                            &mut balanced_pair(punct('<'), punct('>')),
-                        ]),
-                        &mut seq([
-                            &mut balanced_pair(punct('<'), punct('>')),
-                            &mut path_sep,
-                        ]),
+                        &mut seq([&mut path_sep, &mut balanced_angle_brackets]),
+                        &mut seq([&mut balanced_angle_brackets, &mut path_sep]),
                         &mut balanced_pair(punct('|'), punct('|')),
                         &mut token_tree,
                     ]),
@@ -158,6 +152,38 @@ pub fn balanced_pair(
 
         Some((out, c))
     }
+}
+
+/// Parses until balanced amount of `<` and `>` or eof, like [`balanced_pair`] does, but not
+/// counting the `>` of a `->` (as in `f::<fn(A) -> B, C>()`) as a closing one.
+///
+/// [`Cursor`] should be pointing **right after** the first `<`.
+pub fn balanced_angle_brackets(c: Cursor<'_>) -> ParsingResult<'_> {
+    let (mut out, mut c) = punct('<')(c)?;
+    let mut count = 1;
+
+    while count != 0 {
+        let arrow = seq([
+            &mut punct_with_spacing('-', Spacing::Joint),
+            &mut punct('>'),
+        ])(c);
+        let (stream, cursor) = if let Some(arrow) = arrow {
+            arrow
+        } else if let Some(closing) = punct('>')(c) {
+            count -= 1;
+            closing
+        } else if let Some(opening) = punct('<')(c) {
+            count += 1;
+            opening
+        } else {
+            let (tt, c) = c.token_tree()?;
+            (tt.into_token_stream(), c)
+        };
+        out.extend(stream);
+        c = cursor;
+    }
+
+    Some((out, c))
 }
 
 /// Tries to execute the provided sequence of `parsers`.
